@@ -83,9 +83,511 @@ Section LexOk.
     induction cs as [|c cs IH]; intros st line Hst; cbn [lexm].
     - destruct st; cbn [lfinal]; tok.
     - destruct (lstep U st line c) as [[ts st'] l'] eqn:E.
-      destruct (lstep_ok _ _ _ _ _ _ Hst E) as [A B]. apply Forall_app. split; auto. Show.
+      destruct (lstep_ok _ _ _ _ _ _ Hst E) as [A B]. apply Forall_app. split; auto. apply IH. exact B.
   Qed.
 
   Lemma lex_toks_ok : forall text, toks_ok (M_lex U text).
   Proof. intros. apply lexm_ok. exact I. Qed.
 End LexOk.
+
+(* ---- the parser ---- *)
+Section Total.
+  Variable F : font.
+  Variable endl : N.
+  (* maxp.numGlyphs is a uint16; no cmap entry points at glyph 65535 (for such
+     an entry the uint16 loop of a range "x-y" in readGlyphList would not end) *)
+  Hypothesis Hnum : num_glyphs F <= 65535.
+  Hypothesis Hcm : Forall (fun p => snd p <> 65535) (f_cmap F).
+
+  Definition good {A} (n : nat) (r : presult (A * list token)) : Prop :=
+    match r with
+    | POk (_, ts') => toks_ok ts' /\ (length ts' <= n)%nat
+    | PErr _ | PUnmodelled => True
+    | PPanic | PFuel => False
+    end.
+
+  Lemma good_weaken : forall {A} n n' (r : presult (A * list token)), (n <= n')%nat -> good n r -> good n' r.
+  Proof. intros A n n' [[a ts]|l| | |] H G; cbn in *; auto. destruct G. split; auto. lia. Qed.
+
+  Lemma good_bind : forall {A B} (m : P A) (f : A -> P B) ts k n,
+    good k (m ts) ->
+    (forall a ts', toks_ok ts' -> (length ts' <= k)%nat -> good n (f a ts')) ->
+    good n (bind m f ts).
+  Proof.
+    intros A B m f ts k n G H. unfold bind. destruct (m ts) as [[a ts']|l| | |]; cbn in G; auto.
+    destruct G. apply H; auto.
+  Qed.
+
+  Lemma good_ret : forall {A} (a : A) ts n, toks_ok ts -> (length ts <= n)%nat -> good n (ret a ts).
+  Proof. intros. cbn. auto. Qed.
+  Lemma good_fatal : forall {A} ts n, good n (@fatal endl A ts).
+  Proof. intros. exact I. Qed.
+
+  Lemma syn_ok : tok_ok (syn_eof endl).
+  Proof. intros X. discriminate X. Qed.
+
+  Lemma peek_ok : forall ts, toks_ok ts -> tok_ok (peek_tok endl ts).
+  Proof. intros [|t r] H; cbn; [apply syn_ok|]. inversion H; auto. Qed.
+
+  Lemma read_eq : forall ts, read endl ts = POk (peek_tok endl ts, tl ts).
+  Proof. intros [|t r]; reflexivity. Qed.
+
+  Lemma tl_ok : forall ts, toks_ok ts -> toks_ok (tl ts).
+  Proof. intros [|t r] H; cbn; auto. inversion H; auto. Qed.
+
+  Lemma peek_not_eof_len : forall ts, ttyp (peek_tok endl ts) <> TEOF -> S (length (tl ts)) = length ts.
+  Proof. intros [|t r] H; cbn in *; [congruence|reflexivity]. Qed.
+
+  (* pushing back the item just read never makes the stream longer *)
+  Lemma unread_peek : forall ts, toks_ok ts ->
+    exists ts', unread endl (peek_tok endl ts) (tl ts) = POk (tt, ts') /\ toks_ok ts' /\ (length ts' <= length ts)%nat.
+  Proof.
+    intros [|t [|t' r]] H; cbn.
+    - unfold is_syn_eof. cbn. rewrite N.eqb_refl. exists []. repeat split; auto.
+    - destruct (is_syn_eof endl t); eexists; repeat split; eauto; try constructor.
+    - eexists. repeat split; eauto.
+  Qed.
+
+  Lemma optional_good : forall ty ts, ityp_eqb (TEOF) ty = false -> toks_ok ts ->
+    match optional endl ty ts with
+    | POk (b, ts') => toks_ok ts' /\ (if b then (S (length ts') <= length ts)%nat else (length ts' <= length ts)%nat)
+    | _ => False
+    end.
+  Proof.
+    intros ty ts Hty H. unfold optional, bind. rewrite read_eq.
+    destruct (ityp_eqb (ttyp (peek_tok endl ts)) ty) eqn:E.
+    - cbn. split; [apply tl_ok; auto|]. rewrite peek_not_eof_len; auto.
+      intros X. rewrite X in E. congruence.
+    - destruct (unread_peek ts H) as (ts' & Eu & Ok & Len). rewrite Eu. cbn. auto.
+  Qed.
+
+  Lemma good_bind_opt : forall {B} ty (f : bool -> P B) ts k n,
+    ityp_eqb TEOF ty = false -> toks_ok ts -> (length ts <= k)%nat ->
+    (forall ts', toks_ok ts' -> (S (length ts') <= k)%nat -> good n (f true ts')) ->
+    (forall ts', toks_ok ts' -> (length ts' <= k)%nat -> good n (f false ts')) ->
+    good n (bind (optional endl ty) f ts).
+  Proof.
+    intros B ty f ts k n Hty Hok Hl Ht Hf. pose proof (optional_good ty ts Hty Hok) as G.
+    unfold bind. destruct (optional endl ty ts) as [[b ts']|l| | |]; try contradiction.
+    destruct G as [G1 G2]. destruct b; [apply Ht|apply Hf]; auto; lia.
+  Qed.
+
+  Lemma optional_ident_good : forall s ts, toks_ok ts ->
+    match optional_ident endl s ts with
+    | POk (b, ts') => toks_ok ts' /\ (if b then (S (length ts') <= length ts)%nat else (length ts' <= length ts)%nat)
+    | _ => False
+    end.
+  Proof.
+    intros s ts H. unfold optional_ident, bind. rewrite read_eq.
+    destruct (is_ident (peek_tok endl ts) s) eqn:E.
+    - cbn. split; [apply tl_ok; auto|]. rewrite peek_not_eof_len; auto.
+      intros X. unfold is_ident in E. rewrite X in E. discriminate.
+    - destruct (unread_peek ts H) as (ts' & Eu & Ok & Len). rewrite Eu. cbn. auto.
+  Qed.
+
+  Lemma required_good : forall ty ts k, ityp_eqb TEOF ty = false -> toks_ok ts -> (length ts <= S k)%nat ->
+    good k (required endl ty ts).
+  Proof.
+    intros ty ts k Hty H Hl. unfold required, bind. rewrite read_eq.
+    destruct (ityp_eqb (ttyp (peek_tok endl ts)) ty) eqn:E; [|exact I].
+    cbn. split; [apply tl_ok; auto|].
+    assert (X : ttyp (peek_tok endl ts) <> TEOF) by (intros X; rewrite X in E; congruence).
+    apply peek_not_eof_len in X. lia.
+  Qed.
+
+  Lemma read_identifier_good : forall ts k, toks_ok ts -> (length ts <= S k)%nat ->
+    good k (read_identifier endl ts).
+  Proof.
+    intros ts k H Hl. unfold read_identifier, bind. rewrite read_eq.
+    destruct (ityp_eqb (ttyp (peek_tok endl ts)) TIdent) eqn:E; [|exact I].
+    cbn. split; [apply tl_ok; auto|].
+    assert (X : ttyp (peek_tok endl ts) <> TEOF) by (intros X; rewrite X in E; discriminate).
+    apply peek_not_eof_len in X. lia.
+  Qed.
+
+  Lemma rlf_good : forall fuel flags ts n, toks_ok ts -> (length ts <= n)%nat -> (n < fuel)%nat ->
+    good n (read_lookup_flags endl fuel flags ts).
+  Proof.
+    induction fuel as [|f IH]; intros flags ts n H Hl Hf; [lia|]. cbn [read_lookup_flags].
+    apply (good_bind_opt THyphen _ ts n n); auto.
+    - intros ts1 O1 L1. apply (good_bind _ _ _ (n - 1)%nat).
+      + apply read_identifier_good; auto. lia.
+      + intros nm ts2 O2 L2. destruct (flag_of_name builder_parseFlags nm); [|exact I].
+        apply (good_weaken (n - 1)%nat); [lia|]. apply IH; auto. lia.
+    - intros ts1 O1 L1. apply (good_bind_opt TEOL _ ts1 n n); auto; intros; apply good_ret; auto; lia.
+  Qed.
+
+  (* ---- glyph lists ---- *)
+  Lemma by_name_from_bound : forall names i nm acc g,
+    by_name_from names i nm acc = Some g ->
+    acc = Some g \/ (i <= g /\ g < i + N.of_nat (length names)).
+  Proof.
+    induction names as [|n r IH]; intros i nm acc g H; cbn [by_name_from] in H; auto.
+    apply IH in H. destruct H as [H|H].
+    - destruct (negb (is_nil n) && list_eqb n nm); auto. inversion H; subst. right. cbn [length]. lia.
+    - right. cbn [length]. lia.
+  Qed.
+
+  Lemma by_name_bound : forall nm g, by_name F nm = Some g -> g <> 65535.
+  Proof.
+    intros nm g H. unfold by_name in H. apply by_name_from_bound in H. destruct H as [H|H]; [discriminate|].
+    rewrite firstn_length in H. lia.
+  Qed.
+
+  Lemma lookup_runes_bound : forall rs gs, lookup_runes F rs = Some gs -> Forall (fun g => g <> 65535) gs.
+  Proof.
+    induction rs as [|r rs IH]; intros gs H; cbn [lookup_runes] in H.
+    - inversion H. constructor.
+    - destruct (cmap_lookup F r =? 0) eqn:E0; [discriminate|].
+      destruct (lookup_runes F rs) as [l|] eqn:El; [|discriminate]. inversion H; subst.
+      constructor; [|apply IH; auto].
+      unfold cmap_lookup in *. clear - Hcm E0. induction (f_cmap F) as [|[k v] cm IHc]; cbn in *; [lia|].
+      inversion Hcm; subst. destruct (k =? r); auto.
+  Qed.
+
+  Lemma classify_bound : forall t next, classify F t = GNext next -> Forall (fun g => g <> 65535) next.
+  Proof.
+    intros t next H. unfold classify in H. destruct (ttyp t); try discriminate.
+    - destruct (by_name F (tval t)) eqn:E; [|discriminate]. inversion H; subst.
+      constructor; [|constructor]. eapply by_name_bound; eauto.
+    - destruct (atoi (tval t)) as [x|]; [|discriminate].
+      destruct ((x <? 0)%Z || (65536 <=? x)%Z || (Z.of_N (num_glyphs F) <=? x)%Z) eqn:E; [discriminate|].
+      inversion H; subst. constructor; [|constructor]. lia.
+    - destruct (decode_string (tval t)); [|discriminate].
+      destruct (lookup_runes F l) eqn:E; [|discriminate]. inversion H; subst.
+      eapply lookup_runes_bound; eauto.
+  Qed.
+
+  Lemma add_gids_no_loop : forall next res hy, Forall (fun g => g <> 65535) next ->
+    add_gids res hy next <> AddLoop.
+  Proof.
+    induction next as [|g r IH]; intros res hy H; cbn [add_gids]; [discriminate|].
+    inversion H; subst. destruct hy; [|apply IH; auto].
+    destruct (last_opt res); [|discriminate].
+    unfold range_to. destruct (g <? n); [apply IH; auto|].
+    destruct (n <? g); [|apply IH; auto].
+    assert (E : (g =? 65535) = false) by lia. rewrite E. apply IH; auto.
+  Qed.
+
+  Lemma classify_no_panic : forall t, tok_ok t -> classify F t <> GPanic.
+  Proof.
+    intros t H. unfold classify. destruct (ttyp t) eqn:E; try discriminate.
+    - destruct (by_name F (tval t)); discriminate.
+    - destruct (atoi (tval t)); [|discriminate]. destruct (_ || _); discriminate.
+    - specialize (H E). unfold decode_string. destruct (tval t) as [|a [|b r]]; cbn in H; try lia.
+      destruct (lookup_runes F _); discriminate.
+  Qed.
+
+  Lemma classify_eof : forall t, ttyp t = TEOF -> classify F t = GDone.
+  Proof. intros t H. unfold classify. rewrite H. reflexivity. Qed.
+
+  Lemma rgl_good : forall fuel res hy ts n, toks_ok ts -> (length ts <= n)%nat -> (n < fuel)%nat ->
+    good n (read_glyph_list_loop F endl fuel res hy ts).
+  Proof.
+    induction fuel as [|f IH]; intros res hy ts n H Hl Hf; [lia|]. cbn [read_glyph_list_loop].
+    unfold bind at 1. rewrite read_eq.
+    pose proof (peek_ok ts H) as Hp. pose proof (classify_no_panic _ Hp) as Hnp.
+    assert (Hstrict : ttyp (peek_tok endl ts) <> TEOF -> (length (tl ts) <= n - 1)%nat /\ (n - 1 < f)%nat).
+    { intros X. apply peek_not_eof_len in X. lia. }
+    destruct (classify F (peek_tok endl ts)) as [next| | | |] eqn:Ec; try congruence.
+    - assert (X : ttyp (peek_tok endl ts) <> TEOF).
+      { intros X. rewrite (classify_eof _ X) in Ec. discriminate. }
+      destruct (Hstrict X) as [L1 L2].
+      pose proof (add_gids_no_loop next res hy (classify_bound _ _ Ec)) as Hnl.
+      destruct (add_gids res hy next) as [res' hy'| |]; try congruence; [|exact I].
+      apply (good_weaken (n - 1)%nat); [lia|]. apply IH; auto. apply tl_ok; auto.
+    - assert (X : ttyp (peek_tok endl ts) <> TEOF).
+      { intros X. rewrite (classify_eof _ X) in Ec. discriminate. }
+      destruct (Hstrict X) as [L1 L2].
+      destruct hy; [exact I|]. apply (good_weaken (n - 1)%nat); [lia|]. apply IH; auto. apply tl_ok; auto.
+    - destruct (unread_peek ts H) as (ts' & Eu & Ok & Len). unfold bind. rewrite Eu.
+      destruct hy; [exact I|]. apply good_ret; auto. lia.
+    - exact I.
+  Qed.
+
+  Lemma rgs_good : forall fuel ts n, toks_ok ts -> (length ts <= n)%nat -> (n < fuel)%nat ->
+    good n (read_glyph_set F endl fuel ts).
+  Proof.
+    intros fuel ts n H Hl Hf. unfold read_glyph_set.
+    apply (good_bind _ _ _ n). { apply (good_weaken (n - 1)%nat); [lia|]. apply required_good; auto. lia. }
+    intros _ ts1 O1 L1. apply (good_bind _ _ _ n). { apply rgl_good; auto. }
+    intros res ts2 O2 L2. apply (good_bind _ _ _ n). { apply (good_weaken (n - 1)%nat); [lia|]. apply required_good; auto. lia. }
+    intros _ ts3 O3 L3. apply good_ret; auto.
+  Qed.
+
+  (* ---- value records ---- *)
+  Lemma read_int16_good : forall ts k, toks_ok ts -> (length ts <= S k)%nat -> good k (read_int16 endl ts).
+  Proof.
+    intros ts k H Hl. unfold read_int16, bind. rewrite read_eq.
+    destruct (ityp_eqb (ttyp (peek_tok endl ts)) TInt) eqn:E; [|exact I].
+    destruct (atoi _); [|exact I]. destruct (_ || _); [exact I|].
+    cbn. split; [apply tl_ok; auto|].
+    assert (X : ttyp (peek_tok endl ts) <> TEOF) by (intros X; rewrite X in E; discriminate).
+    apply peek_not_eof_len in X. lia.
+  Qed.
+
+  Lemma is_ident_not_eof : forall t s, is_ident t s = true -> ttyp t <> TEOF.
+  Proof. intros t s H X. unfold is_ident in H. rewrite X in H. discriminate. Qed.
+
+  Lemma rvl_good : forall fuel v ts n, toks_ok ts -> (length ts <= n)%nat -> (n < fuel)%nat ->
+    good n (read_value_loop endl fuel v ts).
+  Proof.
+    induction fuel as [|f IH]; intros v ts n H Hl Hf; [lia|]. cbn [read_value_loop].
+    unfold bind at 1. rewrite read_eq.
+    assert (Hstep : forall s (g : Z -> vrec), is_ident (peek_tok endl ts) s = true ->
+              good n ((x <- read_int16 endl ;; read_value_loop endl f (g x)) (tl ts))).
+    { intros s g Hi. pose proof (peek_not_eof_len ts (is_ident_not_eof _ _ Hi)) as L.
+      apply (good_bind _ _ _ (n - 2)%nat).
+      - apply read_int16_good; [apply tl_ok; auto|lia].
+      - intros x ts2 O2 L2. apply (good_weaken (n - 2)%nat); [lia|]. apply IH; auto. lia. }
+    destruct (is_ident (peek_tok endl ts) k_x) eqn:E1; [eapply Hstep; eauto|].
+    destruct (is_ident (peek_tok endl ts) k_y) eqn:E2; [eapply Hstep; eauto|].
+    destruct (is_ident (peek_tok endl ts) k_dx) eqn:E3; [eapply Hstep; eauto|].
+    destruct (unread_peek ts H) as (ts' & Eu & Ok & Len). unfold bind. rewrite Eu.
+    apply good_ret; auto. lia.
+  Qed.
+
+  Lemma rvr_good : forall fuel ts n, toks_ok ts -> (length ts <= n)%nat -> (n < fuel)%nat ->
+    good n (read_value_record endl fuel ts).
+  Proof.
+    intros fuel ts n H Hl Hf. unfold read_value_record.
+    pose proof (optional_ident_good k_us ts H) as G. unfold bind at 1.
+    destruct (optional_ident endl k_us ts) as [[b ts1]|l| | |]; try contradiction.
+    destruct G as [O1 L1]. destruct b.
+    - apply good_ret; auto. lia.
+    - apply (good_bind _ _ _ n). { apply rvl_good; auto. lia. }
+      intros v ts2 O2 L2. apply good_ret; auto.
+  Qed.
+
+  Lemma header_good : forall fuel ts n, toks_ok ts -> (length ts <= n)%nat -> (n < fuel)%nat ->
+    good n (lookup_header endl fuel ts).
+  Proof.
+    intros fuel ts n H Hl Hf. unfold lookup_header.
+    assert (K : forall ts1, toks_ok ts1 -> (length ts1 <= n)%nat ->
+                good n ((optional endl TEOL ;;; read_lookup_flags endl fuel 0) ts1)).
+    { intros ts1 O1 L1. apply (good_bind_opt TEOL _ ts1 n n); auto; intros ts2 O2 L2; apply rlf_good; auto; lia. }
+    apply (good_bind_opt TColon _ ts n n); auto; intros ts1 O1 L1; apply K; auto; lia.
+  Qed.
+
+  (* ---- lookups ---- *)
+  Definition goodlt {A} (n : nat) (r : presult (A * list token)) : Prop :=
+    match r with
+    | POk (_, ts') => toks_ok ts' /\ (S (length ts') <= n)%nat
+    | PErr _ | PUnmodelled => True
+    | PPanic | PFuel => False
+    end.
+
+  Lemma good_bind_lt : forall {A B} (m : P A) (f : A -> P B) ts k n,
+    goodlt k (m ts) ->
+    (forall a ts', toks_ok ts' -> (S (length ts') <= k)%nat -> good n (f a ts')) ->
+    good n (bind m f ts).
+  Proof.
+    intros A B m f ts k n G H. unfold bind. destruct (m ts) as [[a ts']|l| | |]; cbn in G; auto.
+    destruct G. apply H; auto.
+  Qed.
+
+  Lemma required_lt : forall ty ts k, ityp_eqb TEOF ty = false -> toks_ok ts -> (length ts <= k)%nat ->
+    goodlt k (required endl ty ts).
+  Proof.
+    intros ty ts k Hty H Hl. unfold required, bind. rewrite read_eq.
+    destruct (ityp_eqb (ttyp (peek_tok endl ts)) ty) eqn:E; [|exact I].
+    cbn. split; [apply tl_ok; auto|].
+    assert (X : ttyp (peek_tok endl ts) <> TEOF) by (intros X; rewrite X in E; congruence).
+    apply peek_not_eof_len in X. lia.
+  Qed.
+
+  Lemma rgl_good' : forall fuel ts n, toks_ok ts -> (length ts <= n)%nat -> (n < fuel)%nat ->
+    good n (read_glyph_list F endl fuel ts).
+  Proof. intros. apply rgl_good; auto. Qed.
+
+  Ltac tail_comma IH n :=
+    match goal with O : toks_ok ?ts, L : (S (length ?ts) <= n)%nat |- _ => idtac end.
+
+  Lemma gsub1_loop_good : forall fuel res ts n, toks_ok ts -> (length ts <= n)%nat -> (n < fuel)%nat ->
+    good n (gsub1_loop F endl fuel res ts).
+  Proof.
+    induction fuel as [|f IH]; intros res ts n H Hl Hf; [lia|]. cbn [gsub1_loop].
+    apply (good_bind _ _ _ n); [apply rgl_good'; auto|]. intros fr ts1 O1 L1.
+    apply (good_bind_lt _ _ _ n); [apply required_lt; auto|]. intros _ ts2 O2 L2.
+    apply (good_bind _ _ _ (length ts2)); [apply rgl_good'; auto; lia|]. intros to ts3 O3 L3.
+    destruct (negb _); [exact I|]. destruct (add_pairs _ _ _); [|exact I].
+    apply (good_bind_opt TComma _ ts3 (length ts2) n); auto.
+    - intros ts4 O4 L4. apply (good_bind_opt TEOL _ ts4 (length ts4) n); auto;
+        intros ts5 O5 L5; apply (good_weaken (length ts5)); try lia; apply IH; auto; lia.
+    - intros ts4 O4 L4. apply good_ret; auto. lia.
+  Qed.
+
+  Lemma read_gsub1_good : forall fuel ts n, toks_ok ts -> (length ts <= n)%nat -> (n < fuel)%nat ->
+    good n (read_gsub1 F endl fuel ts).
+  Proof.
+    intros fuel ts n H Hl Hf. unfold read_gsub1.
+    apply (good_bind _ _ _ n); [apply header_good; auto|]. intros fl ts1 O1 L1.
+    apply (good_bind _ _ _ n); [apply gsub1_loop_good; auto|]. intros res ts2 O2 L2.
+    destruct (is_nil res); [exact I|apply good_ret; auto].
+  Qed.
+
+  Lemma gsub2_loop_good : forall fuel data ts n, toks_ok ts -> (length ts <= n)%nat -> (n < fuel)%nat ->
+    good n (gsub2_loop F endl fuel data ts).
+  Proof.
+    induction fuel as [|f IH]; intros data ts n H Hl Hf; [lia|]. cbn [gsub2_loop].
+    apply (good_bind _ _ _ n); [apply rgl_good'; auto|]. intros fr ts1 O1 L1.
+    destruct fr as [|g [|g' fr']]; try exact I.
+    apply (good_bind_lt _ _ _ n); [apply required_lt; auto|]. intros _ ts2 O2 L2.
+    apply (good_bind _ _ _ (length ts2)); [apply rgl_good'; auto; lia|]. intros to ts3 O3 L3.
+    destruct (is_nil to).
+    { unfold bind. rewrite read_eq. exact I. }
+    destruct (has_key g data); [exact I|].
+    apply (good_bind_opt TComma _ ts3 (length ts2) n); auto.
+    - intros ts4 O4 L4. apply (good_bind_opt TEOL _ ts4 (length ts4) n); auto;
+        intros ts5 O5 L5; apply (good_weaken (length ts5)); try lia; apply IH; auto; lia.
+    - intros ts4 O4 L4. apply good_ret; auto. lia.
+  Qed.
+
+  Lemma read_gsub2_good : forall fuel ts n, toks_ok ts -> (length ts <= n)%nat -> (n < fuel)%nat ->
+    good n (read_gsub2 F endl fuel ts).
+  Proof.
+    intros fuel ts n H Hl Hf. unfold read_gsub2.
+    apply (good_bind _ _ _ n); [apply header_good; auto|]. intros fl ts1 O1 L1.
+    apply (good_bind _ _ _ n); [apply gsub2_loop_good; auto|]. intros res ts2 O2 L2.
+    destruct (is_nil res); [exact I|apply good_ret; auto].
+  Qed.
+
+  Lemma gsub3_loop_good : forall fuel data ts n, toks_ok ts -> (length ts <= n)%nat -> (n < fuel)%nat ->
+    good n (gsub3_loop F endl fuel data ts).
+  Proof.
+    induction fuel as [|f IH]; intros data ts n H Hl Hf; [lia|]. cbn [gsub3_loop].
+    apply (good_bind _ _ _ n); [apply rgl_good'; auto|]. intros fr ts1 O1 L1.
+    destruct fr as [|g [|g' fr']]; try exact I.
+    apply (good_bind_lt _ _ _ n); [apply required_lt; auto|]. intros _ ts2 O2 L2.
+    apply (good_bind _ _ _ (length ts2)); [apply rgs_good; auto; lia|]. intros to ts3 O3 L3.
+    destruct (has_key g data); [exact I|].
+    apply (good_bind_opt TComma _ ts3 (length ts2) n); auto.
+    - intros ts4 O4 L4. apply (good_bind_opt TEOL _ ts4 (length ts4) n); auto;
+        intros ts5 O5 L5; apply (good_weaken (length ts5)); try lia; apply IH; auto; lia.
+    - intros ts4 O4 L4. apply good_ret; auto. lia.
+  Qed.
+
+  Lemma read_gsub3_good : forall fuel ts n, toks_ok ts -> (length ts <= n)%nat -> (n < fuel)%nat ->
+    good n (read_gsub3 F endl fuel ts).
+  Proof.
+    intros fuel ts n H Hl Hf. unfold read_gsub3.
+    apply (good_bind _ _ _ n); [apply header_good; auto|]. intros fl ts1 O1 L1.
+    apply (good_bind _ _ _ n); [apply gsub3_loop_good; auto|]. intros res ts2 O2 L2.
+    destruct (is_nil res); [exact I|apply good_ret; auto].
+  Qed.
+
+  Lemma gsub4_loop_good : forall fuel data ts n, toks_ok ts -> (length ts <= n)%nat -> (n < fuel)%nat ->
+    good n (gsub4_loop F endl fuel data ts).
+  Proof.
+    induction fuel as [|f IH]; intros data ts n H Hl Hf; [lia|]. cbn [gsub4_loop].
+    apply (good_bind _ _ _ n); [apply rgl_good'; auto|]. intros fr ts1 O1 L1.
+    destruct fr as [|key comps].
+    { unfold bind. rewrite read_eq. exact I. }
+    apply (good_bind_lt _ _ _ n); [apply required_lt; auto|]. intros _ ts2 O2 L2.
+    apply (good_bind _ _ _ (length ts2)); [apply rgl_good'; auto; lia|]. intros to ts3 O3 L3.
+    destruct to as [|out [|o' to']]; try exact I.
+    apply (good_bind_opt TComma _ ts3 (length ts2) n); auto.
+    - intros ts4 O4 L4. apply (good_bind_opt TEOL _ ts4 (length ts4) n); auto;
+        intros ts5 O5 L5; apply (good_weaken (length ts5)); try lia; apply IH; auto; lia.
+    - intros ts4 O4 L4. apply good_ret; auto. lia.
+  Qed.
+
+  Lemma read_gsub4_good : forall fuel ts n, toks_ok ts -> (length ts <= n)%nat -> (n < fuel)%nat ->
+    good n (read_gsub4 F endl fuel ts).
+  Proof.
+    intros fuel ts n H Hl Hf. unfold read_gsub4.
+    apply (good_bind _ _ _ n); [apply header_good; auto|]. intros fl ts1 O1 L1.
+    apply (good_bind _ _ _ n); [apply gsub4_loop_good; auto|]. intros res ts2 O2 L2.
+    apply good_ret; auto.
+  Qed.
+
+  Lemma gpos1_2_loop_good : forall fuel res ts n, toks_ok ts -> (length ts <= n)%nat -> (n < fuel)%nat ->
+    good n (gpos1_2_loop F endl fuel res ts).
+  Proof.
+    induction fuel as [|f IH]; intros res ts n H Hl Hf; [lia|]. cbn [gpos1_2_loop].
+    apply (good_bind _ _ _ n); [apply rgl_good'; auto|]. intros fr ts1 O1 L1.
+    destruct fr as [|g [|g' fr']]; try exact I.
+    apply (good_bind_lt _ _ _ n); [apply required_lt; auto|]. intros _ ts2 O2 L2.
+    apply (good_bind _ _ _ (length ts2)); [apply rvr_good; auto; lia|]. intros adj ts3 O3 L3.
+    apply (good_bind_opt TComma _ ts3 (length ts2) n); auto.
+    - intros ts4 O4 L4. apply (good_bind_opt TEOL _ ts4 (length ts4) n); auto;
+        intros ts5 O5 L5; apply (good_weaken (length ts5)); try lia; apply IH; auto; lia.
+    - intros ts4 O4 L4. apply good_ret; auto. lia.
+  Qed.
+
+  Lemma gpos1_loop_good : forall fuel subs ts n, toks_ok ts -> (length ts <= n)%nat -> (n < fuel)%nat ->
+    good n (gpos1_loop F endl fuel subs ts).
+  Proof.
+    induction fuel as [|f IH]; intros subs ts n H Hl Hf; [lia|]. cbn [gpos1_loop].
+    unfold bind at 1. rewrite read_eq. unfold bind at 1.
+    destruct (unread_peek ts H) as (ts0 & Eu & O0 & L0). rewrite Eu.
+    apply (good_bind _ _ _ n).
+    - destruct (ityp_eqb (ttyp (peek_tok endl ts)) TLBr).
+      + apply (good_bind _ _ _ n); [apply rgs_good; auto; lia|]. intros fr ts1 O1 L1.
+        apply (good_bind_lt _ _ _ n); [apply required_lt; auto|]. intros _ ts2 O2 L2.
+        apply (good_bind _ _ _ n); [apply rvr_good; auto; lia|]. intros adj ts3 O3 L3.
+        apply good_ret; auto.
+      + apply (good_bind _ _ _ n); [apply gpos1_2_loop_good; auto; lia|]. intros res ts1 O1 L1.
+        apply good_ret; auto.
+    - intros sub ts1 O1 L1.
+      apply (good_bind_opt TOr _ ts1 n n); auto.
+      + intros ts4 O4 L4. apply (good_bind_opt TEOL _ ts4 (length ts4) n); auto;
+          intros ts5 O5 L5; apply (good_weaken (length ts5)); try lia; apply IH; auto; lia.
+      + intros ts4 O4 L4. apply good_ret; auto.
+  Qed.
+
+  Lemma read_gpos1_good : forall fuel ts n, toks_ok ts -> (length ts <= n)%nat -> (n < fuel)%nat ->
+    good n (read_gpos1 F endl fuel ts).
+  Proof.
+    intros fuel ts n H Hl Hf. unfold read_gpos1.
+    apply (good_bind _ _ _ n); [apply header_good; auto|]. intros fl ts1 O1 L1.
+    apply (good_bind _ _ _ n); [apply gpos1_loop_good; auto|]. intros res ts2 O2 L2.
+    apply good_ret; auto.
+  Qed.
+
+  Lemma parse_loop_good : forall fuel acc ts n, toks_ok ts -> (length ts <= n)%nat -> (n < fuel)%nat ->
+    good n (parse_loop F endl fuel acc ts).
+  Proof.
+    induction fuel as [|f IH]; intros acc ts n H Hl Hf; [lia|]. cbn [parse_loop].
+    unfold bind at 1. rewrite read_eq.
+    assert (Hs : ttyp (peek_tok endl ts) <> TEOF -> toks_ok (tl ts) /\ (S (length (tl ts)) <= n)%nat).
+    { intros X. apply peek_not_eof_len in X. split; [apply tl_ok; auto|lia]. }
+    assert (Hk : forall (rd : nat -> P lookup),
+               (forall ts' n', toks_ok ts' -> (length ts' <= n')%nat -> (n' < S f)%nat -> good n' (rd (S f) ts')) ->
+               ttyp (peek_tok endl ts) <> TEOF ->
+               good n ((l <- rd (S f) ;; parse_loop F endl f (acc ++ [l])) (tl ts))).
+    { intros rd Hrd X. destruct (Hs X) as [O1 L1].
+      apply (good_bind _ _ _ (length (tl ts))); [apply Hrd; auto; lia|]. intros l ts2 O2 L2.
+      apply (good_weaken (length ts2)); [lia|]. apply IH; auto. lia. }
+    destruct (ttyp (peek_tok endl ts)) eqn:E; try exact I.
+    - apply good_ret; [apply tl_ok; auto|]. destruct ts; cbn in *; lia.
+    - destruct Hs as [O1 L1]; [discriminate|]. apply (good_weaken (length (tl ts))); [lia|]. apply IH; auto. lia.
+    - assert (X : TIdent <> TEOF) by discriminate.
+      repeat match goal with |- context [if ?b then _ else _] => destruct b end; try exact I.
+      + apply (Hk (read_gsub1 F endl)); auto. intros; apply read_gsub1_good; auto.
+      + apply (Hk (read_gsub2 F endl)); auto. intros; apply read_gsub2_good; auto.
+      + apply (Hk (read_gsub3 F endl)); auto. intros; apply read_gsub3_good; auto.
+      + apply (Hk (read_gsub4 F endl)); auto. intros; apply read_gsub4_good; auto.
+      + apply (Hk (read_gpos1 F endl)); auto. intros; apply read_gpos1_good; auto.
+    - destruct Hs as [O1 L1]; [discriminate|]. apply (good_weaken (length (tl ts))); [lia|]. apply IH; auto. lia.
+  Qed.
+End Total.
+
+(* Parse of any text, over any font without a cmap entry for glyph 65535:
+   lookups, an error with a line, or a keyword of the unmodelled grammar *)
+Definition total_font_ok (F : font) : Prop :=
+  num_glyphs F <= 65535 /\ Forall (fun p => snd p <> 65535) (f_cmap F).
+
+Theorem parse_tokens_total : forall F ts, total_font_ok F -> toks_ok ts ->
+  M_parse_tokens F ts <> PPanic /\ M_parse_tokens F ts <> PFuel.
+Proof.
+  intros F ts [Hn Hc] H. unfold M_parse_tokens.
+  pose proof (parse_loop_good F (end_line ts) Hn Hc (S (S (length ts))) [] ts (length ts) H (le_n _)) as G.
+  assert (L : (length ts < S (S (length ts)))%nat) by lia. specialize (G L).
+  destruct (parse_loop F (end_line ts) (S (S (length ts))) [] ts) as [[ll ts']|l| | |];
+    cbn in G; try contradiction; split; discriminate.
+Qed.
+
+Theorem parse_total_text : forall U F text, total_font_ok F ->
+  M_parse U F text <> PPanic /\ M_parse U F text <> PFuel.
+Proof. intros. unfold M_parse. apply parse_tokens_total; auto. apply lex_toks_ok. Qed.
